@@ -1,2 +1,3 @@
 INIT Init
 NEXT Next
+CONSTANT Scheme = "fixed"
